@@ -6,17 +6,19 @@ _C03_WRAP = ["-Wl,--wrap=posix_memalign", "-Wl,--wrap=free"]
 rc_target("c03_sba", flavour="asan", cxxflags=_C03_WRAP)
 rc_target("c03_sba_mt", flavour="sched", wrap=True,
           cxxflags=_C03_WRAP + ["-Wl,--wrap=aws_mutex_lock", "-Wl,--wrap=aws_mutex_unlock"])
-plan("C03", [T("c03_sba", 4000, 14000), T("c03_sba_mt", 2500, 8000)], min_nt=2500,
+# second engine for the threaded clause: free-running threads under ThreadSanitizer (see c17_race / DESIGN 9.4 e)
+rc_target("c03_race", flavour="tsan", race_oracle=True)
+plan("C03", [T("c03_sba", 4000, 14000), T("c03_sba_mt", 2500, 8000), T("c03_race", 1500, 12000, 3, 8)], min_nt=2500,
      rule="command histories against a block table + interval map + independently observed pages; threaded histories x schedules",
      technique="model-based property testing (rapidcheck): per-block patterns re-verified after every command, interval map, "
-               "size-class accounting model, page observation by link-time interposition; threads under the controlled scheduler",
+               "size-class accounting model, page observation by link-time interposition; threads under the controlled scheduler + the same kind of generated program on free-running threads under ThreadSanitizer (race report or functional oracle)",
      level_text="Generated search. Sequential: thousands of shrinking histories of up to 400 acquire/calloc/realloc/release commands "
                 "(class edges, both directions across the 512-byte boundary, LIFO/FIFO/random/whole-page/release-all orders); every live "
                 "block carries a pattern over its requested size that is re-verified after every command, new blocks are checked for "
                 "alignment and disjointness, bytes_active is compared with the sum of the classes of the live small blocks, pages are "
                 "counted by interposing posix_memalign/free. Threaded: 2-3 threads with own command lists and hand-over on a "
                 "multi-threaded allocator under a scheduler that owns every bin-mutex decision (plus the page allocation/free inside "
-                "the critical section); sequential consistency, preemption only at those points. Sampling, not proof.",
+                "the critical section); sequential consistency, preemption only at those points. Sampling, not proof. Second engine (*_race target): real parallel threads under ThreadSanitizer, whose happens-before analysis sees unsynchronised accesses that the controlled scheduler cannot (a section without lock calls has no decision point); a report or a functional failure there is a violation, replayed 12 times and reported when it shows twice.",
      assumptions=["out-of-memory is fatal by design and not generated (sizes <= 8 KiB)",
                   "no block is written beyond its requested size; patterns never contain AWS_SBA_TAG_VALUE (design limit of tag detection)",
                   "realloc/release are given the size/pointer of the most recent (re)allocation of that block",
